@@ -178,6 +178,12 @@ Fixpoint remove_id (i : N) (l : list modent) : list modent :=
   | m :: r => if N.eqb (m_id m) i then r else m :: remove_id i r
   end.
 
+Fixpoint remove_root (i : N) (l : list rootent) : list rootent :=      (* list.remove: the first occurrence *)
+  match l with
+  | [] => []
+  | o :: r => if N.eqb (ro_id o) i then r else o :: remove_root i r
+  end.
+
 Definition reg_append (r : reg) (parent : list text) (name : text) (is_pkg : bool)
            (all' unproc' : list modent) (roots' : list rootent) : reg :=
   let m := mkMod (parent ++ [name]) is_pkg (r_next r) in
@@ -201,8 +207,8 @@ Definition reg_add (r : reg) (parent : list text) (name : text) (is_pkg : bool) 
         let gone := map m_id (filter (fun m => is_prefix fn (m_path m)) (r_all r)) in
         reg_append r parent name is_pkg
                    (filter (fun m => negb (is_prefix fn (m_path m))) (r_all r))
-                   (filter (fun m => negb (existsb (N.eqb (m_id m)) gone)) (r_unproc r))
-                   (filter (fun o => negb (N.eqb (ro_id o) (m_id first))) (r_rootobjs r))
+                   (fold_left (fun u i => remove_id i u) gone (r_unproc r))
+                   (remove_root (m_id first) (r_rootobjs r))
   | None => reg_append r parent name is_pkg (r_all r) (r_unproc r) (r_rootobjs r)
   end.
 
